@@ -3,6 +3,7 @@ import PncProofs.BridgeLemmas
 import PncProofs.SlabReadLemmas
 import PncProofs.UamivReadEncode
 import PncProofs.WindRecThm
+import PncProofs.WindRecOne
 /-
 C13 — memory-mapped and record-based CAMx readers agree.
 
@@ -772,6 +773,26 @@ theorem exWind_reg : WindRec.RegW 4 1 3 exWind (19200, 2300) 100 := by
 example : (WindRec.read 4 (Wind.encode exWind)).map (fun v => (v.nt, v.nz, v.times, v.u, v.v)) =
     some (2, 1, [(19200, 2300), (19201, 0)], [[[1, 2, 3, 4]], [[9, 10, 11, 12]]], [[[5, 6, 7, 8]], [[13, 14, 15, 16]]]) := by
   rw [(wind_readers_agree 4 1 3 exWind (19200, 2300) 100 exWind_reg).1]
+  rfl
+
+/-- **C13 (wind files of one step).** The record reader finds no second time header, presents one step with a nominal
+step of 100 and exactly the U and V slabs of the file; the memory-mapped reader presents the encoded step. -/
+theorem wind_readers_agree_one (cells nz h : Nat) (s : Wind.WStep) (o : WindRec.OneW cells nz h s) :
+    WindRec.read cells (Wind.encode [s]) = some (WindRec.viewOf nz [s] (WindRec.dtOf s) 100) ∧
+    Wind.read cells (Wind.encode [s]) = some [s] :=
+  ⟨WindRec.read_encode_one o, Wind.read_encode cells nz h [s] o.wf⟩
+
+/-- a one-step, two-layer wind file on a 2 x 2 grid with the two-word header -/
+def exWindOne : Wind.WStep := ⟨f32OfNat 1800, 19200, none, [[1, 2, 3, 4], [5, 6, 7, 8], [9, 10, 11, 12], [13, 14, 15, 16]]⟩
+
+theorem exWindOne_ok : WindRec.OneW 4 2 2 exWindOne := by
+  refine ⟨⟨by decide, by decide, by decide, by decide, by decide⟩, by decide, by decide +kernel⟩
+
+example : (WindRec.read 4 (Wind.encode [exWindOne])).map (fun v => (v.nt, v.nz, v.times, v.u, v.v)) =
+    some (1, 2, [(19200, 1800)], [[[1, 2, 3, 4], [9, 10, 11, 12]]], [[[5, 6, 7, 8], [13, 14, 15, 16]]]) := by
+  rw [(wind_readers_agree_one 4 2 2 exWindOne exWindOne_ok).1]
+  have e : WindRec.dtOf exWindOne = (19200, 1800) := by decide +kernel
+  rw [e]
   rfl
 
 end Props.C13
